@@ -8,29 +8,31 @@ NOTE_COMMON = ("Trusted base: Lean 4.33 kernel; axioms propext/Classical.choice/
                "no sorry/native_decide/bv_decide/own axioms); tools/py2lean.py; the harness (generators, canonicalisers, oracles, driver parsing); "
                "CPython/numpy/scipy as execution substrate. ")
 
-CHECKS = {
-    "C09": dict(
-        category="proof",
-        text=("Lean 4 theorems about an executable model of dates.py (all integer serials/offsets, all frequencies, all span triples and "
-              "in-place op sequences, no bound): (p+n)-p=n, p+(q-p)=q, order/equality/hash-key agree with serial order, mixed frequencies "
-              "rejected by every binary op and by Span construction, year/segment round trips, ordinal<->(y,m,d) bijection on valid dates, "
-              "consecutive regular periods tile the day line (start(s+1)=end(s)+1, start<=middle<=end), shift keywords land on the documented "
-              "period, a span enumerates exactly start+i*step up to end, len/iter/index agree, reversal is an involution, shifting maps elements, "
-              "resolve replaces exactly the contextual ends. The model is tied to the code on every run: closed-form fragments and day tables are "
-              "regenerated from dates.py by the translator (a changed formula re-checks the proofs), everything else by exact line-by-line "
-              "correspondence with irispie (quick: every day 1890-2110 + boundary years, every regular period of those years; thorough: every "
-              "day and period of years 1-9999), plus an independent datetime/range oracle on the implementation that supplies the replay."),
-        design="7/C09",
-        note=NOTE_COMMON + "datetime.date is the reference calendar (tied by enumeration, not proof); CPython hash() itself is not modelled.",
-        technique="Lean 4 proof over executable model + translator-regenerated fragments + exhaustive differential correspondence",
-    ),
-}
+# properties whose check is claimed; each harness/cXX.py carries its own MANIFEST literal
+CLAIMED = ["C09"]
+
+NOT_CLAIMED_REASON = {}
+
+
+def manifest_of(pid):
+    import ast
+    path = os.path.join(HERE, "harness", pid.lower() + ".py")
+    tree = ast.parse(open(path).read())
+    for n in tree.body:
+        if isinstance(n, ast.Assign) and any(isinstance(t, ast.Name) and t.id == "MANIFEST" for t in n.targets):
+            d = ast.literal_eval(n.value)
+            d["note"] = NOTE_COMMON + d.get("note", "")
+            return d
+    raise SystemExit(f"{path}: no MANIFEST literal")
+
+
+CHECKS = {pid: manifest_of(pid) for pid in CLAIMED}
 
 NOT_YET = {}
 for i in range(1, 21):
     pid = f"C{i:02d}"
     if pid not in CHECKS:
-        NOT_YET[pid] = "check not built yet in this round (planned in DESIGN.md section 7); not claimed until its Lean model, theorems and correspondence run"
+        NOT_YET[pid] = NOT_CLAIMED_REASON.get(pid) or "check not built yet in this round (planned in DESIGN.md section 7); not claimed until its Lean model, theorems and correspondence run"
 
 
 def main():
